@@ -211,6 +211,13 @@ ListEffect(f, x, y, s, i, j) ==
     [] f = "count" -> Same(x \o ".count(" \o s \o ")", "ok", <<Str(CountEq(L, s))>>)
     [] f = "iter" -> Eff(var, heap, [obj |-> var[x], pos |-> 0, dirty |-> FALSE], "it = iter(" \o x \o ")", "ok", <<>>, {}, FALSE, FALSE)
     [] f = "next" -> NextEff
+    \* x = list(it): everything the iterator has left, as a new list; the iterator is exhausted afterwards and STAYS
+    \* exhausted however the list it walked grows later (found missing by an independently seeded change: an exhausted
+    \* list iterator that came back to life after an append)
+    [] f = "drain" -> Eff([var EXCEPT ![x] = NewId],
+                          Append(heap, IF iter.pos >= 0 /\ iter.pos < Len(heap[iter.obj])
+                                       THEN SubSeq(heap[iter.obj], iter.pos + 1, Len(heap[iter.obj])) ELSE <<>>),
+                          [iter EXCEPT !.pos = -1], x \o " = list(it)", "ok", <<>>, {}, FALSE, FALSE)
     [] f = "forappend" -> Eff(var, ForAppend(heap, var[x], var[y], 1), iter,
                               "for e in " \o x \o ": " \o y \o ".append(e) if len(" \o y \o ") < " \o Str(MaxLen) \o " else None", "ok", <<>>, {var[y]}, FALSE, FALSE)
     [] f = "listcomp" -> Fresh(x, M, x \o " = [e for e in " \o y \o "]")
@@ -247,6 +254,7 @@ ListEnabled(f, x, y, s, i, j) ==
        [] f = "sort" -> AllScalars(L)
        [] f = "rebind" -> x # y
        [] f = "next" -> iter.obj # 0
+       [] f = "drain" -> iter.obj # 0
        [] OTHER -> TRUE
 
 -----------------------------------------------------------------------------
@@ -449,7 +457,7 @@ EmitFinal == (~EmitAll /\ Len(hist) = MaxOps) => PrintT(ToJson([kind |-> Kind, c
 \* TLC identifies situations, not the ways they were reached: the history is bookkeeping
 \* ... except the way the newest object was made: every way of copying (slice, constructor, method, +, *, comprehension,
 \* set operator) must be followed by every mutation, so situations reached by different copying statements stay apart
-CopyForms == {"slicecopy", "getslice", "listcopy", "concat", "concat2", "repeat", "listcomp", "copy", "dictcopy", "setcopy", "or", "and", "sub", "xor"}
+CopyForms == {"slicecopy", "getslice", "listcopy", "drain", "concat", "concat2", "repeat", "listcomp", "copy", "dictcopy", "setcopy", "or", "and", "sub", "xor"}
 CopyTag == IF hist # <<>> /\ hist[Len(hist)].form \in CopyForms THEN hist[Len(hist)].form ELSE ""
 View == <<cf.name, var, heap, iter, CopyTag>>
 
